@@ -272,7 +272,9 @@ where
     }
 
     fn call(&mut self, req: Req) -> Self::Future {
-        let mut service = self.inner.clone();
+        // Take the instance that was driven to readiness; leave a fresh clone behind
+        let clone = self.inner.clone();
+        let mut service = std::mem::replace(&mut self.inner, clone);
         let config = Arc::clone(&self.config);
         let req_clone = req.clone();
 
